@@ -423,6 +423,10 @@ func (s *fakeStream) Send(ctx context.Context, m proto.Message) error {
 	}
 	s.reqs <- req
 	if s.sess.mode == "uQ" {
+		// the refusal has already arrived: Send reports io.EOF, the status is what Recv returns
+		s.sess.pool.mu.Lock()
+		s.sess.pool.logf("Z=eof")
+		s.sess.pool.mu.Unlock()
 		return io.EOF
 	}
 	return nil
